@@ -479,6 +479,26 @@ Proof.
   apply (HA c Hc).
 Qed.
 
+(* ... nor has Connect reported success. Return codes are arbitrary N here: every code other
+   than 0 (the five refusals of MQTT 3.1.1 and every reserved value) refuses *)
+Theorem no_success_without_accept sched k c :
+  Forall (fun sl => is_label k is_accept sl = false) sched ->
+  nth_error (cls (reach sched)) k = Some c ->
+  c_conn c <> CReturned ROk /\ c_conn c <> CGotAck /\ c_state c <> SActive /\ count_state SActive (c_log c) = 0%nat.
+Proof.
+  intros HF Hc.
+  assert (HA : AllK k (fun _ c => inv_NoAcc c) (reach sched)).
+  { apply (AllK_run v k (fun l => is_accept l = false) (fun _ c => inv_NoAcc c) Hv).
+    - intros dr c0 l c0' Hi Hl Hs. eapply inv_NoAcc_pres; eassumption.
+    - auto.
+    - eapply Forall_impl; [|exact HF]. intros sl Hsl l ->. cbn in Hsl. rewrite Nat.eqb_refl in Hsl. exact Hsl.
+    - right. intros _. unfold inv_NoAcc; cbn. repeat split; discriminate.
+    - apply AllK_init. intros. unfold inv_NoAcc; cbn. repeat split; discriminate. }
+  destruct (HA c Hc) as (_ & N1 & N2 & N3).
+  destruct (reach_inv v m sched k c Hv Hc) as (_ & (A1 & _) & _).
+  repeat split; try assumption. apply A1. exact N2.
+Qed.
+
 (* the connection has ended (Done() closed) and Disconnect was not called: exactly one Closed
    callback, carrying a non-nil error, which is what Err() returns *)
 Theorem closed_once_with_error sched k c :
@@ -717,3 +737,25 @@ Lemma disconnect_in_exit_window :
   all_enabled VCur (init_sys false) sched_disc_in_exit_window = true /\
   c_log c = [(SActive, None); (SDisconnected, Some EEOF)] /\ c_err c = Some EEOF /\ c_done c = true.
 Proof. vm_compute. repeat split. Qed.
+
+(* a CONNACK packet yields the accepting label exactly when it is well formed (header flags 0,
+   two bytes) and its return code byte is 0 - whatever the acknowledge-flags byte is *)
+Lemma connack_label_accept_iff hflag contents :
+  is_accept (connack_label hflag contents) = true <-> hflag = 0 /\ exists f, contents = [f; 0].
+Proof.
+  unfold connack_label, connack_parse. split.
+  - destruct (hflag =? 0) eqn:E; cbn; [|discriminate].
+    apply N.eqb_eq in E. destruct contents as [|f [|code [|x r]]]; cbn; try discriminate.
+    destruct code; cbn; [|discriminate]. intros _. split; [exact E|exists f; reflexivity].
+  - intros (-> & f & ->). reflexivity.
+Qed.
+
+(* every return code byte other than 0 refuses: the step of Connect that takes the CONNACK
+   returns RRefused code, for all 255 values (non-vacuity / the finite sweep, by computation) *)
+Lemma every_nonzero_code_refuses :
+  forallb (fun code =>
+    let s := run VCur (init_sys false) [On 0 LConnStart; On 0 (LConnWrite true); On 0 (connack_label 0 [1; code]); On 0 LConnSeeAck; On 0 LConnActive] in
+    match c_conn (client_at s 0) with CReturned (RRefused x) => (x =? code) | _ => false end &&
+    Nat.eqb (length (c_log (client_at s 0))) 0)
+    (map N.of_nat (seq 1 255)) = true.
+Proof. vm_compute. reflexivity. Qed.
